@@ -48,6 +48,14 @@ func reject(c *lib.Ctx, key, what string, replay any) {
 	c.Reject(key, what, replay)
 }
 
+// extendFeature marks list configurations that use ExtendStyle.
+func extendFeature(c Cfg) string {
+	if (c.Kind == "listbox" || c.Kind == "combobox") && c.Extend {
+		return ":extend-style"
+	}
+	return ""
+}
+
 // panicKey names the class of a recovered panic.
 func panicKey(kind, msg string) string {
 	for _, p := range [][2]string{{"index out of range", "index-out-of-range"}, {"slice bounds out of range", "slice-bounds"},
@@ -65,7 +73,7 @@ func run(c *lib.Ctx) error {
 		return replay(c)
 	}
 	c.Set("rule", "a case is (string, width) or (widget configuration, size); distinct by canonical JSON; non-trivial = every case with w >= 0 (each has a prescribed result or a render obligation)")
-	parts := []func(*lib.Ctx) error{strings_, widgets, randomAll}
+	parts := []func(*lib.Ctx) error{strings_, recorded}
 	errs := make([]error, len(parts))
 	var wg sync.WaitGroup
 	for i := range parts {
@@ -187,7 +195,7 @@ func strKey(why string, sc StrCase, exp []int) string {
 func strings_(c *lib.Ctx) error {
 	dir := c.SpecDir("Width")
 	cfg := fmt.Sprintf("CONSTANTS MaxLen = %d MaxLenNL = %d MaxW = %d Tier = %d\nINIT InitStrShards\nNEXT NextStrShards\nINVARIANT StrLaws\nINVARIANT EmitStr\n",
-		c.Pick(4, 5), c.Pick(4, 5), c.Pick(9, 11), c.Pick(1, 2))
+		c.Pick(4, 5), c.Pick(3, 5), c.Pick(7, 11), c.Pick(1, 2))
 	r, err := c.TLC("MCWidth/strings", lib.TLCRun{Dir: dir, Module: "MCWidth", Workers: 4, Timeout: 14 * time.Minute, HeapGB: 6,
 		Files: map[string][]byte{"MCWidth.cfg": []byte(cfg)}})
 	if err != nil {
@@ -245,7 +253,7 @@ func strings_(c *lib.Ctx) error {
 			c.Sample(em)
 		}
 	}
-	if want := r.Distinct - int64(c.Pick(9, 11)+2); int64(n) != want {
+	if want := r.Distinct - int64(c.Pick(7, 11)+2); int64(n) != want {
 		return lib.Infra("TLC reported %d string cases, received %d", want, n)
 	}
 	c.AddTraces(n)
@@ -282,7 +290,7 @@ func renderAndCollect(c *lib.Ctx, cfgs []Cfg, sizesOf func(i int) []Size, seed i
 		}
 		c.AddEvals(len(sizes))
 		if pan != "" {
-			reject(c, panicKey(cf.key(), pan), fmt.Sprintf("%s panics: %s", js(cf), pan), wc)
+			reject(c, panicKey(cf.key(), pan)+extendFeature(cf), fmt.Sprintf("%s panics: %s", js(cf), pan), wc)
 			continue
 		}
 		out = append(out, wc)
@@ -297,34 +305,39 @@ func judgeWidgets(c *lib.Ctx, name string, wcs []WidgetCase, par int) error {
 	}
 	c.AddTraces(len(wcs))
 	for _, b := range bad {
-		wc := wcs[b.Index]
-		why, at := "render", ""
-		if len(b.Info) >= 2 {
-			if j, ok := b.Info[0].(int64); ok && j >= 1 && int(j) <= len(wc.Renders) {
-				r := wc.Renders[j-1]
-				at = fmt.Sprintf("Render(%d, %d) produced %d lines of widths %v", r.W, r.H, len(r.Lines), lineWidths(r))
-			}
-			if s, ok := b.Info[1].(string); ok {
-				why = s
-			}
-		}
-		reject(c, wc.Cfg.key()+":"+why+wc.Cfg.feature(), fmt.Sprintf("%s: %s", js(wc.Cfg), at), wc)
+		rejectWidget(c, wcs[b.Index], b.Info)
 	}
 	return nil
 }
 
-func lineWidths(r Render) []int { return r.Lines }
+func rejectWidget(c *lib.Ctx, wc WidgetCase, info []any) {
+	why, at := "render", ""
+	if len(info) >= 2 {
+		if j, ok := info[0].(int64); ok && j >= 1 && int(j) <= len(wc.Renders) {
+			r := wc.Renders[j-1]
+			at = fmt.Sprintf("Render(%d, %d) produced %d lines of widths %v", r.W, r.H, len(r.Lines), r.Lines)
+		}
+		if s, ok := info[1].(string); ok {
+			why = s
+		}
+	}
+	if wc.Cfg.feature() == ":control-chars" && (why == "height-exceeded" || why == "width-exceeded") {
+		why = "overflow" // a caret cell both widens a line and wraps it; one class
+	}
+	reject(c, wc.Cfg.key()+":"+why+wc.Cfg.feature(), fmt.Sprintf("%s: %s", js(wc.Cfg), at), wc)
+}
 
-func widgets(c *lib.Ctx) error {
+
+func widgets(c *lib.Ctx) ([]WidgetCase, error) {
 	dir := c.SpecDir("Width")
 	cfg := fmt.Sprintf("CONSTANTS MaxLen = 1 MaxLenNL = 1 MaxW = 1 Tier = %d\nINIT InitWidget\nNEXT Next\nINVARIANT EmitWidget\n", c.Pick(1, 2))
 	r, err := c.TLC("MCWidth/widgets", lib.TLCRun{Dir: dir, Module: "MCWidth", Workers: 2, Timeout: 14 * time.Minute, HeapGB: 6,
 		Files: map[string][]byte{"MCWidth.cfg": []byte(cfg)}})
 	if err != nil {
-		return err
+		return nil, err
 	}
 	if r.ErrKind != "" {
-		return lib.Infra("MCWidth/widgets: %s %s", r.ErrKind, r.Err)
+		return nil, lib.Infra("MCWidth/widgets: %s %s", r.ErrKind, r.Err)
 	}
 	seen := map[string]bool{}
 	var cfgs []Cfg
@@ -336,14 +349,14 @@ func widgets(c *lib.Ctx) error {
 		seen[s] = true
 		var cf Cfg
 		if err := json.Unmarshal([]byte(s), &cf); err != nil {
-			return lib.Infra("bad widget configuration from TLC: %v: %s", err, s)
+			return nil, lib.Infra("bad widget configuration from TLC: %v: %s", err, s)
 		}
 		cfgs = append(cfgs, cf)
 		kinds[cf.key()]++
 		c.Distinct(cf)
 	}
 	if int64(len(cfgs)) != r.Distinct { // (probes are appended below)
-		return lib.Infra("TLC reported %d widget configurations, received %d", r.Distinct, len(cfgs))
+		return nil, lib.Infra("TLC reported %d widget configurations, received %d", r.Distinct, len(cfgs))
 	}
 	sizes := gridSizes
 	if c.Quick() {
@@ -361,17 +374,52 @@ func widgets(c *lib.Ctx) error {
 		return sizes
 	}, c.Seed*1000003)
 	if err != nil {
-		return err
+		return nil, err
 	}
 	if len(wcs) > 0 {
 		c.Sample(wcs[len(wcs)/2].Cfg)
 	}
-	if err := judgeWidgets(c, "JudgeWidth/enumerated", wcs, c.Pick(3, 6)); err != nil {
-		return err
-	}
 	c.Set("widget_configurations", kinds)
 	c.Set("renders_per_configuration", len(sizes))
 	c.Logf("widgets: %d configurations x %d sizes (+ %d directed probes) rendered and judged %v", nEnum, len(sizes), len(pr), kinds)
+	return wcs, nil
+}
+
+// recorded: everything that is judged by TLC after the fact (enumerated widget configurations,
+// random strings, random widget states) goes to JudgeWidth in one batch.
+func recorded(c *lib.Ctx) error {
+	wcs, err := widgets(c)
+	if err != nil {
+		return err
+	}
+	scs, rws, err := randomAll(c)
+	if err != nil {
+		return err
+	}
+	var all []any
+	for _, x := range wcs {
+		all = append(all, x)
+	}
+	for _, x := range scs {
+		all = append(all, x)
+	}
+	for _, x := range rws {
+		all = append(all, x)
+	}
+	bad, err := lib.Judge(c, "JudgeWidth", c.SpecDir("Width"), "JudgeWidth", all, c.Pick(2, 6), 14*time.Minute)
+	if err != nil {
+		return err
+	}
+	c.AddTraces(len(all))
+	for _, b := range bad {
+		switch x := all[b.Index].(type) {
+		case WidgetCase:
+			rejectWidget(c, x, b.Info)
+		case StrCase:
+			rejectStr(c, x, b.Info)
+		}
+	}
+	c.Logf("judged by TLC: %d enumerated widget configurations, %d random strings, %d random widget states", len(wcs), len(scs), len(rws))
 	return nil
 }
 
@@ -409,7 +457,7 @@ func replay(c *lib.Ctx) error {
 			return lib.Infra("%v", err)
 		}
 		if pan != "" {
-			reject(c, panicKey(wc.Cfg.key(), pan), pan, w2)
+			reject(c, panicKey(wc.Cfg.key(), pan)+extendFeature(wc.Cfg), pan, w2)
 			return nil
 		}
 		return judgeWidgets(c, "JudgeWidth/replay", []WidgetCase{w2}, 1)
@@ -436,23 +484,26 @@ func judgeStrs(c *lib.Ctx, name string, scs []StrCase, par int) error {
 	}
 	c.AddTraces(len(scs))
 	for _, b := range bad {
-		sc := scs[b.Index]
-		why := "trim"
-		var exp []int
-		if len(b.Info) >= 2 {
-			if s, ok := b.Info[1].(string); ok {
-				why = s
-			}
-		}
-		if len(b.Info) >= 3 {
-			if s, ok := b.Info[2].(string); ok {
-				json.Unmarshal([]byte(s), &exp)
-			}
-		}
-		str, _ := stringOf(sc.S)
-		reject(c, strKey(why, sc, exp), fmt.Sprintf("(%q, %d): real code %s", str, sc.W, js(sc)), sc)
+		rejectStr(c, scs[b.Index], b.Info)
 	}
 	return nil
+}
+
+func rejectStr(c *lib.Ctx, sc StrCase, info []any) {
+	why := "trim"
+	var exp []int
+	if len(info) >= 2 {
+		if s, ok := info[1].(string); ok {
+			why = s
+		}
+	}
+	if len(info) >= 3 {
+		if s, ok := info[2].(string); ok {
+			json.Unmarshal([]byte(s), &exp)
+		}
+	}
+	str, _ := stringOf(sc.S)
+	reject(c, strKey(why, sc, exp), fmt.Sprintf("(%q, %d): real code %s", str, sc.W, js(sc)), sc)
 }
 
 var _ = rand.Int
